@@ -459,6 +459,15 @@ def project_specs(draw, pf: Profile):
                 if t.alloc and draw(st.integers(0, 4)) == 0:
                     t.alloc = ["rz"]
                     t.alt = []
+        if draw(st.booleans()):
+            # a resource that leaves for good after the first days: its tasks start but cannot finish
+            rw = Res("rw", leaves=[Leave("vacation", start + timedelta(days=draw(st.integers(1, 3))), start + timedelta(days=span + 1500))])
+            spec.resources.append(rw)
+            for p, t in leaves_:
+                if t.alloc and t.alloc != ["rz"] and draw(st.integers(0, 4)) == 0:
+                    t.alloc = ["rw"]
+                    t.alt = []
+                    t.effort = (str(draw(st.integers(30, 80))), "h")
         eff_leaves = [(p, t) for p, t in leaves_ if t.alloc]
         if len(eff_leaves) >= 2 and draw(st.integers(0, 2)) == 0:
             (pa, ta), (pb, tb) = eff_leaves[0], eff_leaves[-1]
